@@ -4,6 +4,8 @@ Quantifier: all sequences of options `getopt_long` can return on the documented 
 abbreviated long options, clustered short options and the interactive prompt mode are outside the model).
 -/
 import Wencry.Proofs.CliCorrect
+import Wencry.Proofs.ProgramCorrect
+import Wencry.Proofs.GetoptCorrect
 namespace Wencry.Props.C17
 open Wencry Wencry.Model.Cli Wencry.Proofs.Cli
 
@@ -41,5 +43,86 @@ theorem default_output_name (path : Bytes) (d : Bool) :
     getVOpt [.e, .i path true] d =
       .ok (if path.length + 5 < 128 ∧ d then .run .encrypt path (some (path ++ dotWenc)) none 0 0 false else .diag) :=
   default_output path d
+
+/-- the key string printed at encryption (RFC 4648 encoding of the 16 key bytes) is accepted by `-d` and yields exactly that key:
+    `-d -i F -k <printed key> -o G` starts a decryption of F into G under the same key (C16 + the parser; restoring the file is C01) -/
+theorem printed_key_starts_decryption (k : Bytes) (hk : k.length = 16) (inp out : Bytes) (d : Bool) :
+    getVOpt [.d, .i inp true, .k (Spec.Base64.encode k), .o out true] d = .ok (.run .decrypt inp (some out) (some k) (-1) (-1) false) := by
+  have h := Proofs.Base64.printed_key_accepted k hk
+  simp [getVOpt, parseAll, parseOpt, setMode, Pak.init, h.1, h.2, bind, Except.bind, pure, Except.pure]
+
+/-- the whole program (Model/Program.lean: options → parser → operation → exit status, over a toy file system) never faults -/
+theorem program_never_faults (cfg : Model.File.Cfg) (hT : 1 ≤ cfg.T) (hB : 1 ≤ cfg.B) (hH : 1 ≤ cfg.H) (fs : Model.Program.FS)
+    (canCreate : Model.Program.Path → Bool) (rkey rseed : Bytes) (hk : rkey.length = 16) (args : List Model.Program.Arg) :
+    ∃ r, Model.Program.run cfg fs canCreate rkey rseed args = .ok r :=
+  Proofs.Program.run_no_fault cfg hT hB hH fs canCreate rkey rseed hk args
+
+/-- "With defaults, `-e -i F` writes F.wenc and prints a key with which `-d` restores F": both runs exit 0, the second writes
+    exactly F's contents to G, and F itself is untouched -/
+theorem default_encrypt_then_decrypt_restores (cfg : Model.File.Cfg) (hT : 1 ≤ cfg.T) (hB : 1 ≤ cfg.B) (hH : 1 ≤ cfg.H)
+    (fs : Model.Program.FS) (F G : Model.Program.Path) (P : Bytes)
+    (hF : fs.read F = some P) (hlen : F.length + 5 < 128) (canCreate : Model.Program.Path → Bool)
+    (hc1 : canCreate (F ++ dotWenc) = true) (hc2 : canCreate G = true) (hG : G ≠ F ++ dotWenc) (hGF : G ≠ F)
+    (rkey rseed : Bytes) (hk : rkey.length = 16) :
+    ∃ r1 pk, Model.Program.run cfg fs canCreate rkey rseed [.e, .i F] = .ok r1 ∧ r1.status = 0 ∧ r1.printedKey = some pk ∧
+      (r1.fs.read (F ++ dotWenc)).isSome ∧ r1.fs.read F = some P ∧
+      ∀ rkey' rseed', ∃ r2, Model.Program.run cfg r1.fs canCreate rkey' rseed' [.d, .i (F ++ dotWenc), .k pk, .o G] = .ok r2 ∧
+        r2.status = 0 ∧ r2.fs.read G = some P ∧ r2.fs.read F = some P :=
+  Proofs.Program.encrypt_then_decrypt_restores cfg hT hB hH fs F G P hF hlen canCreate hc1 hc2 hG hGF rkey rseed hk
+
+/-! ### The same statements about raw argv vectors (Model/Getopt.lean: glibc `getopt_long` on the option tables regenerated from
+valget/getopts.cpp, and the option loop of `get_v_opt`), for every argv, every file-system answer and every scanner state -/
+section argv
+open Wencry.Model.Getopt
+
+/-- every argv-level outcome is the token-level outcome of some token sequence, so the ∀-token theorems above apply to it -/
+theorem argv_outcome_is_token_outcome (env : Env) (g : GState) (argv : List Bytes) :
+    ∃ toks d, (getVOptArgv resetFixed env g argv).1 = getVOpt toks d :=
+  Proofs.Getopt.argv_outcome_is_token_outcome resetFixed env g argv
+
+/-- no option vector makes the parser fault -/
+theorem argv_never_faults (env : Env) (g : GState) (argv : List Bytes) : ∃ o, (getVOptArgv resetFixed env g argv).1 = .ok o := by
+  obtain ⟨toks, d, h⟩ := argv_outcome_is_token_outcome env g argv
+  obtain ⟨o, ho⟩ := never_faults toks d
+  exact ⟨o, h.trans ho⟩
+
+/-- an operation is started from an argv only with every handle present, a 16-byte key and modes in range -/
+theorem argv_operation_started_wellformed (env : Env) (g : GState) (argv : List Bytes) (op : Op) (inp : Bytes) (out key : Option Bytes)
+    (c h : Int) (ne : Bool) (hr : (getVOptArgv resetFixed env g argv).1 = .ok (.run op inp out key c h ne)) :
+    settingsOk c h = true ∧ (∀ k, key = some k → k.length = 16) ∧
+    (op = .encrypt → out.isSome ∧ 0 ≤ c ∧ c ≤ 4 ∧ 0 ≤ h ∧ h ≤ 2) ∧
+    (op = .decrypt → out.isSome ∧ key.isSome) ∧ (op = .verify → key.isSome) := by
+  obtain ⟨toks, d, h'⟩ := argv_outcome_is_token_outcome env g argv
+  exact operation_started_wellformed toks d op inp out key c h ne (h'.symm.trans hr)
+
+/-- exit status 0 iff information was printed or the operation that was started succeeded -/
+theorem argv_exit_zero_iff_success (env : Env) (g : GState) (argv : List Bytes) (o : Outcome)
+    (ho : (getVOptArgv resetFixed env g argv).1 = .ok o) (r : Bool) :
+    exitStatus o r = 0 ↔ (o = .info ∨ ((∃ op inp out key c h ne, o = .run op inp out key c h ne) ∧ r = true)) := by
+  obtain ⟨toks, d, h'⟩ := argv_outcome_is_token_outcome env g argv
+  exact exit_zero_iff_success toks d o (h'.symm.trans ho) r
+
+/-- the bound on `getopt_long` calls built into the model's loop is never the reason a scan stops -/
+theorem argv_scan_fuel_irrelevant (argv : List Bytes) (g : GState) (env : Env) (p : Pak) (f : Nat) (hf : fuelFor argv g ≤ f) :
+    loop argv f g env p = loop argv (fuelFor argv g) g env p :=
+  Proofs.Getopt.loop_fuel_irrelevant argv g env p f hf
+
+/-- non-vacuity and spelling: `Wencry -ne --inp=F --cm 3 -oG` (cluster, abbreviation, attached values) starts a CFB encryption of F into G -/
+example : (getVOptArgv resetFixed ⟨[[70]], [[71]]⟩ GState.fresh
+    [[87], [45, 110, 101], [45, 45, 105, 110, 112, 61, 70], [45, 45, 99, 109], [51], [45, 111, 71]]).1.toOption =
+    some (.run .encrypt [70] (some [71]) none 3 0 true) := by decide
+
+/-- generated-data obligation: the option tables regenerated from valget/getopts.cpp stay inside what Model/Getopt.lean models of
+    glibc: no optional arguments ("::" or has_arg = 2), no `W;`, default ordering (the string does not start with '+', '-' or ':'),
+    and every option `getopt_long` can deliver is one the model of `parseOpts` knows (`m` is delivered and then rejected) -/
+theorem option_tables_within_model :
+    (Gen.longOpts.all fun e => e.2.1 ≤ 1) = true ∧
+    (Gen.shortOpts.head? ≠ some 43 ∧ Gen.shortOpts.head? ≠ some 45 ∧ Gen.shortOpts.head? ≠ some 58) ∧
+    ((Gen.shortOpts.zip Gen.shortOpts.tail).all fun x => !(x.1 = 58 && x.2 = 58) && !(x.1 = 87 && x.2 = 59)) = true ∧
+    (Gen.longOpts.all fun e => tokOf ⟨[], []⟩ (.opt e.2.2 (some [])) != Tok.unknown) = true ∧
+    ((Gen.shortOpts.filter (· ≠ 58)).all fun c => tokOf ⟨[], []⟩ (.opt c.toNat (some [])) != Tok.unknown) = true := by
+  decide
+
+end argv
 
 end Wencry.Props.C17
